@@ -134,6 +134,15 @@ def walker_cases(path):
     return out
 
 
+def func_accessors(path, fname):
+    """flatbuffer accessors mentioned in the body of one top-level Go function"""
+    src = open(path).read()
+    m = re.search(r"func " + re.escape(fname) + r"\(.*?\n}\n", src, re.S)
+    if not m:
+        die("%s not found in %s" % (fname, path))
+    return re.findall(r"\.((?:Try)?[A-Z][A-Za-z0-9]*(?:Bytes|Offsets|Length|Level))\(", m.group(0))
+
+
 def cq(s):
     return '"' + s.replace('"', '""') + '"'
 
@@ -171,6 +180,7 @@ def main():
                 elif ty not in SCALARS and ty not in all_enums:
                     die("%s: %s.%s has unknown type %s" % (f, tn, name, ty))
     wc = walker_cases(os.path.join(repo, "go", "store", "types", "serial_message.go"))
+    aw = func_accessors(os.path.join(repo, "go", "store", "prolly", "message", "merge_artifacts.go"), "walkMergeArtifactAddresses")
     o = []
     o.append("(* GENERATED by translator/c09_schema.py from go/serial/*.fbs and go/store/types/serial_message.go — do not edit. *)")
     o.append("From Coq Require Import String List.")
@@ -188,6 +198,9 @@ def main():
     o.append("")
     o.append("Definition fbs_roots : list (string * string) :=")
     o.append("  [ " + ";\n    ".join("(%s, %s)" % (cq(a), cq(b)) for a, b in roots) + " ].")
+    o.append("")
+    o.append("(* accessors mentioned by message.walkMergeArtifactAddresses *)")
+    o.append("Definition artifact_walker : list string := [%s]." % "; ".join(cq(x) for x in aw))
     o.append("")
     o.append("Definition walker_cases : list (string * list string) :=")
     o.append("  [ " + ";\n    ".join("(%s, [%s])" % (cq(a), "; ".join(cq(x) for x in l)) for a, l in wc) + " ].")
